@@ -82,8 +82,22 @@ where
     }
 }
 
+thread_local! {
+    /// Set by the interpreter: the next `insert_with` closure panics (with `InitPanic(key)`) before
+    /// writing anything, as user code is allowed to.
+    pub static PANIC_NEXT_INIT: std::cell::Cell<bool> = const { std::cell::Cell::new(false) };
+}
+
+/// Panic payload of a scripted initialisation-closure failure.
+pub struct InitPanic(pub u32);
+
 fn init_with<T: Payload>(key: u32) -> impl FnOnce(&mut MaybeUninit<T>) {
-    move |slot| T::write_into(slot, key)
+    move |slot| {
+        if PANIC_NEXT_INIT.replace(false) {
+            std::panic::panic_any(InitPanic(key));
+        }
+        T::write_into(slot, key);
+    }
 }
 
 // ------------------------------------------------------------------------------------------------
